@@ -143,6 +143,21 @@ def run(ctx):
     # the returned tuple's mask is the accumulator; initial value is u32::MAX
     init = [s for pos, s in cw.iter_stmts() if s['k'] == 'assign' and s['dst']['l'] in ovl and s['rv']['k'] == 'use' and s['rv']['o'].get('i') == '4294967295']
     C.check(len(init) == 1, 'C17-SIB-mask', 'accumulator-starts-at-all-versions', 'the mask accumulator does not start at u32::MAX')
+    # the version a file is written with is the version stored in the file: serialize() rewrites the schema location of the root
+    # from ArxmlFileRaw.version on EVERY path before the text is produced (set_version() itself only stores the version)
+    C.rule('C17-MUST-header', 'ArxmlFile::serialize calls AutosarModelRaw::set_version(self.version) on every path before Element::serialize_internal: after a successful set_version() the serialized header always names the new version (no conditional / try-lock around the update)')
+    fs = P.get('ArxmlFile::serialize')
+    sv_ = calls(fs, r'AutosarModelRaw>::set_version$')
+    si_ = calls(fs, r'impl Element>::serialize_internal$')
+    okh = len(sv_) == 1 and len(si_) >= 1
+    if okh:
+        okh = all(must_pass(fs, (0, 0), [p_], through={sv_[0]}) for p_ in si_)
+        n_, c_, f_ = deep_sources(fs, fs.blocks[sv_[0][0]]['term']['args'][1], depth=10)
+        okh = okh and 'ArxmlFileRaw.version' in f_
+        # the model lock for it is a blocking write (a try-lock would skip the update under contention)
+        okh = okh and not calls(fs, r'RwLock::<R, T>::try_write(_for|_until)?$')
+    C.check(okh, 'C17-MUST-header', 'ArxmlFile::serialize|header-version-updated-on-every-path', 'ArxmlFile::serialize can produce the text without having written the file\'s version into the schema location of the root element (conditional or try-locked update): after set_version() the file may still be written, and load, as the old version',
+            '%s:%d' % (fs.file, fs.line), sample={'fn': 'ArxmlFile::serialize', 'step': 'model.write().set_version(self.version) before serialize_internal'})
     return C.finish('Sibling agreement between the validator and the compatibility walk on the version columns (which accessors each calls on every acceptance path), '
                     'the gate on ArxmlFileRaw.version, and the accumulation of the returned mask. Does not decide the iff between "no incompatibility" and strict validation for all documents x 21^2 version pairs.')
 
